@@ -1,23 +1,17 @@
 import OZ.Drv.C20Util
-import OZ.Model.RegKeys
+import OZ.Model.RegKeysMon
 /-
 `keys ...` sub-driver of C20: the claim-issuer signing-key registry.
 Universe: public keys 0..nk (0 = empty byte string) x schemes {1,2}; topics 0..7 (the mock
 registry contract answers `has_claim_topic = (topic != 7)`); registries 0..2.
 -/
 namespace OZ.Drv.C20.Keys
-open OZ.Drv OZ.Drv.C20 OZ.RegKeys
-
-def NR : Nat := 3
-def allowed (_r t : Nat) : Bool := t ≠ 7
+open OZ.Drv OZ.Drv.C20 OZ.RegKeys OZ.RegKeys.Mon
 
 structure M where
   s : State
   nk : Nat
   nt : Nat
-
-def keysU (nk : Nat) : List Key := (List.range (nk + 1)).flatMap (fun k => [(k, 1), (k, 2)])
-def showKey (k : Key) : String := s!"{k.1}.{k.2}"
 
 def initM (ws : List String) : M := { s := init, nk := (kvNat? ws "nk").getD 3, nt := (kvNat? ws "nt").getD 8 }
 
@@ -48,80 +42,36 @@ def stepLine (m : M) (line : String) : M × String :=
     | .ok s' => let m' := { m with s := s' }; (m', "ok " ++ showState m')
     | .error _ => (m, "err " ++ showState m)
 
-/-! ### monitor: the plain relation {(key, topic, registry)} recomputed from the accepted ops -/
-
-structure Mon where
-  rel : List (Key × Nat × Nat)     -- (key, topic, registry)
-  nk : Nat
-  nt : Nat
+/-! ### monitor: parsing only; the checks are `OZ.RegKeys.Mon.checkCore` (OZ/Model/RegKeysMon.lean),
+proved sound in OZ/Props/C20aMon.lean -/
 
 def minit (ws : List String) : Mon := { rel := [], nk := (kvNat? ws "nk").getD 3, nt := (kvNat? ws "nt").getD 8 }
-
-def keysOf (g : Mon) (t : Nat) : List Key := ((g.rel.filter (fun x => x.2.1 == t)).map (·.1)).eraseDups
-def pairsOf (g : Mon) (k : Key) : List (Nat × Nat) := (g.rel.filter (fun x => x.1 == k)).map (·.2)
 
 def parseKey (s : String) : Option Key :=
   match s.splitOn "." with
   | [a, b] => do pure ((← a.toNat?), (← b.toNat?))
   | _ => none
 
-def check (g : Mon) (opl obs : String) : Mon × Option String :=
+def parseObs (obs : String) : Obs :=
   let ws := words obs
-  let ok := ws.head? == some "ok"
-  match parseOp (words opl) with
-  | none => (g, some s!"site=keys.parse bad op {opl}")
-  | some op =>
-    -- what the plain relation with the documented limits says about this op
-    let (expect, why, rel') : Bool × String × List (Key × Nat × Nat) :=
-      match op with
-      | .allow k r t =>
-        if k.1 = 0 then (false, "empty_key", g.rel)
-        else if !allowed r t then (false, "not_allowed", g.rel)
-        else if g.rel.contains (k, t, r) then (false, "dup", g.rel)
-        else if !(keysOf g t).contains k ∧ (keysOf g t).length ≥ 50 then (false, "limit.allow_key.keys_per_topic", g.rel)
-        else if (pairsOf g k).length ≥ 20 then (false, "limit.allow_key.registries_per_key", g.rel)
-        else (true, (if (pairsOf g k).length = 19 then "limit.allow_key.registries_per_key"
-                     else if !(keysOf g t).contains k ∧ (keysOf g t).length = 49 then "limit.allow_key.keys_per_topic"
-                     else "valid"), g.rel ++ [(k, t, r)])
-      | .remove k r t =>
-        if g.rel.contains (k, t, r) then (true, "present", g.rel.erase (k, t, r)) else (false, "absent", g.rel)
-    let g' : Mon := if ok then { g with rel := rel' } else g
-    let g2 : Mon := if ok ∧ ¬ expect then
-        -- keep following the implementation so that later getter checks stay meaningful
-        match op with
-        | .allow k r t => { g with rel := g.rel ++ [(k, t, r)] }
-        | .remove k r t => { g with rel := g.rel.erase (k, t, r) }
-      else g'
-    let accept : Option String :=
-      if ok = expect then none
-      else if ok then some (acceptedSite "keys" why)
-      else some (refusedSite "keys" why)
-    -- getters against the plain relation
-    let Ts := (parts ";" (kvS ws "T")).filterMap (fun e =>
+  { ok := ws.head? == some "ok",
+    T := (parts ";" (kvS ws "T")).filterMap (fun e =>
       match e.splitOn ":" with
       | [t, l] => do pure ((← t.toNat?), (l.splitOn ",").filterMap parseKey)
-      | _ => none)
-    let Rs := (parts ";" (kvS ws "R")).filterMap (fun e =>
+      | _ => none),
+    R := (parts ";" (kvS ws "R")).filterMap (fun e =>
       match e.splitOn ":" with
       | [k, l] => do pure ((← parseKey k), natList l)
-      | _ => none)
-    let tChecks := (List.range g2.nt).map (fun t =>
-      let want := keysOf g2 t
-      match Ts.find? (fun x => x.1 == t) with
-      | some (_, l) => chk (want ≠ [] ∧ nodupB l ∧ sameSet l want)
-          s!"site=keys.topic_getter get_keys_for_topic({t}) = {l.map showKey} but the plain relation has {want.map showKey}"
-      | none => chk (want = []) s!"site=keys.topic_getter get_keys_for_topic({t}) fails but the plain relation has {want.map showKey}")
-    let rChecks := (keysU g2.nk).map (fun k =>
-      let want := sortN ((pairsOf g2 k).map (·.2))
-      match Rs.find? (fun x => x.1 == k) with
-      | some (_, l) => chk (want ≠ [] ∧ sortN l = want)
-          s!"site=keys.registry_getter get_registries({showKey k}) = {l} but the plain relation has {want}"
-      | none => chk (want = []) s!"site=keys.registry_getter get_registries({showKey k}) fails but the plain relation has {want}")
-    let atWant := (keysU g2.nk).flatMap (fun k => (List.range g2.nt).map (fun t => g2.rel.any (fun x => x.1 == k ∧ x.2.1 == t)))
-    let arWant := (keysU g2.nk).flatMap (fun k => (List.range NR).map (fun r => g2.rel.any (fun x => x.1 == k ∧ x.2.2 == r)))
-    let fail := firstFail ([accept] ++ tChecks ++ rChecks ++
-      [chk (kvS ws "at" = bits atWant) "site=keys.two_way is_key_allowed_for_topic differs from: exists a pair (topic, .) of the key",
-       chk (kvS ws "ar" = bits arWant) "site=keys.two_way is_key_allowed_for_registry differs from: exists a pair (., registry) of the key"])
-    (g2, fail)
+      | _ => none),
+    atB := kvS ws "at",
+    arB := kvS ws "ar" }
+
+def check (g : Mon) (opl obs : String) : Mon × Option String :=
+  match parseOp (words opl) with
+  | none => (g, some s!"site=keys.parse bad op {opl}")
+  | some op => checkCore g op (parseObs obs)
+
+/-- the monitor state type, as the dispatcher OZ/Drv/C20.lean names it -/
+abbrev MonT := OZ.RegKeys.Mon.Mon
 
 end OZ.Drv.C20.Keys
